@@ -188,7 +188,7 @@ prop("C08",
      outside="nothing within the statement (the induction covers all histories); trusted: derived "
              "PartialEq of the scanner is structural")
 for _c in range(16):
-    add("cc14_step_cc_ch%02d" % _c, "cc14::step_cc", ["C08", "C15", "C16", "C04", "C18"],
+    add("cc14_step_cc_ch%02d" % _c, "cc14::step_cc", ["C08", "C15", "C16", "C07", "C17", "C04", "C18"],
         "ALL16: every abstract state of all 16 channels x every Control Change on channel %d "
         "(controller number, value symbolic): output and post-state vs. observer" % _c,
         args="0xFFFF, %d" % _c, unwind=17, cost=60)
@@ -255,7 +255,7 @@ def _mask3(c):
 
 
 for _c in range(16):
-    add("nrpn_step_cc_ch%02d" % _c, "pnm::step_cc", ["C11", "C10", "C15", "C16", "C04", "C18"],
+    add("nrpn_step_cc_ch%02d" % _c, "pnm::step_cc", ["C11", "C10", "C15", "C16", "C17", "C04", "C18"],
         "channels %d,%d,%d arbitrary: every abstract state x every Control Change on channel %d" % (
             _c, _c ^ 8, _c ^ 1, _c), args="0x%04x, %d" % (_mask3(_c), _c), unwind=17, cost=60)
     add("nrpn_step_cc_all16_ch%02d" % _c, "pnm::step_cc", ["C11", "C10", "C15", "C16", "C18"],
